@@ -1,7 +1,7 @@
 //! C04 — returned solutions are feasible and self-consistent (DESIGN.md §5.4).
 
 use crate::gen::lin::{lin_case, LinCase, LinParams};
-use crate::props::solvers::{check_solution, solve, Ans, ALL};
+use crate::props::solvers::{check_solution, solve, Ans, ALL, LIMITED};
 use crate::runner::{Outcome, Prop, Tier};
 use proptest::prelude::*;
 
@@ -45,7 +45,7 @@ impl Prop for C04 {
         serde_json::to_string(&c.pretty()).unwrap()
     }
     fn rule(&self) -> String {
-        "linear/MILP models built through the public LinearModel API: 0-5 variables of every domain kind (free, bounded, half-bounded, fixed, Boolean, integer range), 0-6 rows with integer/quarter coefficients incl. zero and duplicated rows, named/unnamed/duplicate-named rows, offsets, min/max/satisfy, solver-internal-looking variable names; each of the five entry points (MILP, auto, real microlp, Clarabel, tableau simplex) is run and every returned solution is re-checked against the model (one value per variable, value_of, domains, integrality, rows within 1e-6 scaled, objective incl. offset, named activities). Non-trivial = some solver returned a solution on a model with >=2 variables and a row with >=2 non-zeros. Distinct = distinct model text.".into()
+        "linear/MILP models built through the public LinearModel API: 0-5 variables of every domain kind (free, bounded, half-bounded, fixed, Boolean, integer range), 0-6 rows with integer/quarter coefficients incl. zero and duplicated rows, named/unnamed/duplicate-named rows, offsets, min/max/satisfy, solver-internal-looking variable names; each of the five entry points (MILP, auto, real microlp, Clarabel, tableau simplex) is run, the MILP entry point also under a zero time limit and under node limits 1 and 3 (guarded hook), and every returned solution is re-checked against the model (one value per variable, value_of, domains, integrality, rows within 1e-6 scaled, objective incl. offset, named activities). Non-trivial = some solver returned a solution on a model with >=2 variables and a row with >=2 non-zeros. Distinct = distinct model text.".into()
     }
     fn assumptions(&self) -> Vec<String> {
         vec!["tolerance 1e-6 scaled by (1 + |rhs| + sum |a_i x_i|) as stated in DESIGN.md".into()]
@@ -58,7 +58,7 @@ impl Prop for C04 {
         let internal_names = case.vars.iter().any(|v| {
             ["$sl_", "$su_", "$a_", "$p", "$m"].iter().any(|p| v.0.starts_with(p))
         });
-        for w in ALL {
+        for w in ALL.into_iter().chain(LIMITED) {
             match solve(w, &model) {
                 Ans::Ok(sol) => {
                     any_ok = true;
